@@ -274,6 +274,10 @@ def run(ctx):
     depth_rule(ctx)
     seqcap_rule(ctx)
     alloc_rule(ctx, scope)
+    # the allocation cap set by the caller is the one in force inside a block taken out of a reader, and after it
+    # (shared with C11: a sub-reader built with the default cap lifts the caller's bound for good)
+    from .c11 import take_rule
+    take_rule(ctx)
     loop_rule(ctx, scope)
 
 
